@@ -33,6 +33,7 @@ type CCase struct {
 	Init COp    `json:"init"`
 	Ops  []COp  `json:"ops"`
 	Conc int    `json:"conc,omitempty"` // events processed concurrently with a sequence of rotations (0 = none)
+	CB   bool   `json:"cb,omitempty"`   // one event with per-event wrapper info whose Tags() callback rotates the filter
 }
 
 type CPlain struct {
@@ -51,6 +52,44 @@ type CEwi struct {
 	id   string
 	salt []byte
 	info []byte
+}
+
+// CEwiCB: per-event wrapper info without salt / info, and a Tags() callback that rotates the filter: the deterministic
+// stand-in for a rotation scheduled between the head of Process and the first value
+type CEwiCB struct {
+	H1 string `class:"sensitive,hmac-sha256"`
+	H2 []byte `class:"secret,hmac-sha256"`
+}
+
+var callbackFilter *encrypt.Filter
+
+func (p *CEwiCB) EventId() string  { return "Ev-1" }
+func (p *CEwiCB) HmacSalt() []byte { return nil }
+func (p *CEwiCB) HmacInfo() []byte { return nil }
+func (p *CEwiCB) Tags() ([]encrypt.PointerTag, error) {
+	callbackFilter.Rotate(encrypt.WithWrapper(cWrapper(2)), encrypt.WithSalt(poolBytes("salt", 2)), encrypt.WithInfo(poolBytes("info", 2)))
+	return nil, nil
+}
+
+func callbackPart(c CCase, keys []keyCand) []string {
+	if !c.CB {
+		return nil
+	}
+	callbackFilter = &encrypt.Filter{Wrapper: cWrapper(1), HmacSalt: poolBytes("salt", 1), HmacInfo: poolBytes("info", 1)}
+	ev, err := callbackFilter.Process(context.Background(), &el.Event{Type: "t", CreatedAt: fixedTime, Payload: &CEwiCB{H1: "data", H2: []byte("data")}})
+	if err != nil || ev == nil {
+		return []string{"(0%N, 1%N, 2%N)"}
+	}
+	q := ev.Payload.(*CEwiCB)
+	var out []string
+	for _, s := range []string{q.H1, string(q.H2)} {
+		if _, a := attributeHmac(s, []byte("data"), 0, keys, false); a.ok {
+			out = append(out, fmt.Sprintf("(%s, %s, %s)", hc.N(a.kid/1000), hc.N(a.sid), hc.N(a.iid)))
+		} else {
+			out = append(out, "(0%N, 1%N, 2%N)")
+		}
+	}
+	return out
 }
 
 func (p *CEwi) EventId() string  { return p.id }
@@ -294,8 +333,8 @@ func execCrypto(c CCase) cresult {
 		steps = append(steps, fmt.Sprintf("(%s, %s)", opLit, obs))
 	}
 	conc := concurrentPart(c, keys, &res)
-	res.lit = fmt.Sprintf("{| cc_id := %s; cc_init := {| f_wrap := %s; f_salt := %s; f_info := %s |};\n   cc_steps := %s;\n   cc_conc := %s |}",
-		hc.N(c.ID), optKeyLit(c.Init.W), optBstrLit(c.Init.S), optBstrLit(c.Init.I), hc.List(steps), hc.List(conc))
+	res.lit = fmt.Sprintf("{| cc_id := %s; cc_init := {| f_wrap := %s; f_salt := %s; f_info := %s |};\n   cc_steps := %s;\n   cc_conc := %s; cc_cb := %s |}",
+		hc.N(c.ID), optKeyLit(c.Init.W), optBstrLit(c.Init.S), optBstrLit(c.Init.I), hc.List(steps), hc.List(conc), hc.List(callbackPart(c, keys)))
 	return res
 }
 
@@ -418,6 +457,7 @@ func cryptoSpecials() []CCase {
 		{K: "event", S: -1, I: -1, Data: all(1)}, {K: "event", EWI: true, EvID: 1, S: -1, I: -1, Data: all(1)},
 		{K: "rotpayload", W: 3, S: -1, I: -1}, {K: "event", S: -1, I: -1, Data: all(1)}, {K: "event", EWI: true, EvID: 3, S: -1, I: -1, Data: all(1)}}})
 	out = append(out, CCase{Gen: "concurrent", Init: COp{W: 1, S: 1, I: 1}, Conc: 150})
+	out = append(out, CCase{Gen: "callback-rotation", Init: COp{W: 1, S: 1, I: 1}, CB: true})
 	return out
 }
 
@@ -498,7 +538,7 @@ func replayCrypto(data []byte) {
 	var w struct {
 		Case CCase `json:"case"`
 	}
-	if err := json.Unmarshal(data, &w); err != nil || len(w.Case.Ops) == 0 && w.Case.Conc == 0 {
+	if err := json.Unmarshal(data, &w); err != nil || len(w.Case.Ops) == 0 && w.Case.Conc == 0 && !w.Case.CB {
 		_ = json.Unmarshal(data, &w.Case)
 	}
 	r := execCrypto(w.Case)
@@ -511,5 +551,9 @@ func replayCrypto(data []byte) {
 	}
 	for _, p := range r.panics {
 		fmt.Println("PANIC:", p)
+	}
+	if w.Case.CB {
+		fmt.Println("event with per-event wrapper info (nil salt / info) whose Tags() rotates the filter from (w1, salt-1, info-1) to (w2, salt-2, info-2):")
+		fmt.Println("  (base of the derived wrapper, salt, info) per HMAC value:", callbackPart(w.Case, keyCands()))
 	}
 }
